@@ -25,10 +25,12 @@ RULE = (
     "ranks) enumerates all transitions (history, event) of the BFS closure; every rank permutation of the non-root, "
     "non-history nodes re-executes each of them on a freshly built machine and the full trace (configuration, context, "
     "ordered markers with event identity, on_transition arguments) must be byte-identical; plus a PYTHONHASHSEED "
-    "subprocess sample; distinct_nontrivial = distinct (machine, engine, transition, permutation) executions"
+    "subprocess sample; plus independence of process history: every sequence up to the length bound over three machines "
+    "(parameterised guard with a 3-argument implementation, the same with a legacy 2-argument implementation, unparameterised) "
+    "is built with fresh callables, run and dropped in one process, each trace must equal the one the machine has by construction; distinct_nontrivial = distinct (machine, engine, transition, permutation) executions"
 )
 BOUNDS = {
-    "quick": "TREE(N<=4) with parallel/history, all (<=24) rank permutations, both engines; hash seeds {1,2}",
+    "quick": "TREE(N<=4) with parallel/history, all (<=24) rank permutations, both engines; hash seeds {1,2}; process-history sequences of length <=4 over 3 machines",
     "thorough": "TREE(N<=5) with parallel/history: all permutations when <=4 ranked nodes, for 5 ranked nodes all 120 "
                 "permutations on machines with <=40 transitions else the 10 transpositions + reversal; hash seeds {1,2,3}",
 }
@@ -56,9 +58,95 @@ def uninstall_ranks() -> None:
     _RANK.clear()
 
 
+# ------------------------------------------------------------------ independence of what ran earlier in the process
+HIST_MACHINES = ("G3", "G2", "G0")
+
+
+def hist_machine(kind: str):
+    """Freshly built machine + fresh callables every time.  G3: parameterised guard implemented with (ctx, event, params);
+    G2: the same config but the guard implemented the legacy way (ctx, event), params ignored; G0: unparameterised guards."""
+    from xstate_statemachine import MachineLogic, create_machine
+
+    log: List[tuple] = []
+    gcfg: Any = {"type": "atLeast", "params": {"min": 2}} if kind != "G0" else "always"
+    cfg = {"id": "g", "initial": "a", "context": {"n": 0},
+           "states": {"a": {"on": {"GO": [{"target": "b", "guard": gcfg, "actions": ["hit"]}, {"target": "c", "actions": ["miss"]}],
+                                   "INC": {"actions": ["inc"]}}},
+                      "b": {"on": {"BACK": "a"}}, "c": {"on": {"BACK": "a"}}}}
+
+    def hit(i, c, e, a):
+        log.append("hit")
+
+    def miss(i, c, e, a):
+        log.append("miss")
+
+    def inc(i, c, e, a):
+        c["n"] += 1
+
+    if kind == "G3":
+        def guard(ctx, ev, params):
+            return ctx["n"] >= params["min"]
+    elif kind == "G2":
+        def guard(ctx, ev):
+            return ctx["n"] >= 1
+    else:
+        def guard(ctx, ev):
+            return True
+    name = "always" if kind == "G0" else "atLeast"
+    m = create_machine(cfg, logic=MachineLogic(actions={"hit": hit, "miss": miss, "inc": inc}, guards={name: guard}))
+    return m, log
+
+
+def hist_trace(kind: str) -> tuple:
+    from xstate_statemachine import SyncInterpreter
+
+    m, log = hist_machine(kind)
+    it = SyncInterpreter(m)
+    it.start()
+    out = []
+    for ev in ("GO", "BACK", "INC", "GO", "BACK", "INC", "GO"):
+        it.send(ev)
+        out.append(tuple(sorted(s.id for s in it._active_state_nodes)))
+    it.stop()
+    return (tuple(out), tuple(log))
+
+
+def run_history(tier: str) -> Dict[str, Any]:
+    """Every sequence over {G3, G2, G0} up to the length bound is built, run and dropped in ONE process; each run's trace
+    must equal the trace the machine has by construction, whatever ran before it in the process."""
+    import gc
+    import itertools
+
+    res = dict(states=0, transitions=0, executions=0, distinct_count=0, violations=[], samples=[], caps=[])
+    # the traces these machines have by construction (events GO, BACK, INC, GO, BACK, INC, GO)
+    A_, B_, C_ = ("g", "g.a"), ("g", "g.b"), ("g", "g.c")
+    ref = {
+        "G3": ((C_, A_, A_, C_, A_, A_, B_), ("miss", "miss", "hit")),     # atLeast{min:2} on n = 0, 1, 2
+        "G2": ((C_, A_, A_, B_, A_, A_, B_), ("miss", "hit", "hit")),      # legacy guard n >= 1, params ignored
+        "G0": ((B_, A_, A_, B_, A_, A_, B_), ("hit", "hit", "hit")),
+    }
+    maxlen = 4 if tier == "quick" else 5
+    for n in range(1, maxlen + 1):
+        for seq in itertools.product(HIST_MACHINES, repeat=n):
+            for k in seq:
+                got = hist_trace(k)
+                gc.collect()
+                res["executions"] += 1
+                res["distinct_count"] += 1
+                if got != ref[k]:
+                    res["violations"].append(dict(
+                        signature=f"C16|depends-on-earlier-machines-in-the-process|{k}", clause="history-dependence",
+                        what=f"machine {k} after the process had built, run and dropped {list(seq)} (and all shorter sequences before): {got} instead of {ref[k]}",
+                        size=n, replay=dict(kind="history", seq=list(seq))))
+                    res["samples"].append(dict(kind="process history", sequences="aborted at first difference"))
+                    return res
+    res["samples"].append(dict(kind="process history", alphabet=list(HIST_MACHINES), max_length=maxlen, runs=res["executions"]))
+    return res
+
+
 def units(tier: str) -> List[Any]:
     n = 4 if tier == "quick" else 5
-    out = []
+    out = [("history", tier)]
     for t in F.trees_upto(n):
         kinds = F.tree_kinds(t)
         if "P" in kinds or "Hs" in kinds or "Hd" in kinds:
@@ -80,6 +168,10 @@ def trace_of(d, mark) -> tuple:
 
 
 def run_unit(unit):
+    if unit[0] == "history":
+        r = run_history(unit[1])
+        r["states"] = r["executions"]
+        return r
     tree, tier = unit
     cfg, nodes, events = F.universal_config(tree, reenter_all=False)
     byid = {n.id: n for n in nodes}
@@ -179,6 +271,11 @@ def run_unit(unit):
 def replay(payload):
     from .c01 import _tuplify
 
+    if payload.get("kind") == "history":
+        r = run_history("thorough")
+        for v in r["violations"]:
+            print("  ", v["what"][:400])
+        return r["violations"]
     tree = _tuplify(payload["tree"])
     cfg, nodes, events = F.universal_config(tree, reenter_all=False)
     ranked = [n.id for n in nodes if n.idx != 0 and not n.is_history]
